@@ -11,10 +11,11 @@ for pid in props:
     if os.path.exists(up) and not m.get('not_applicable'):
         u=json.load(open(up))
         hs=u.get('harnesses',[])
-        q=[h for h in hs if h.get('tier','quick')=='quick']; t=[h for h in hs if h.get('tier','quick')!='quick']
+        q=[h for h in hs if h.get('tier','quick')=='quick']; t=[h for h in hs if h.get('tier')=='thorough']; un=[h for h in hs if h.get('tier')=='unreached']
         comp=lambda l: sum(1 for h in l if h['kind'] in ('total','contract'))
         tiers=(f" Quick tier: {len(q)} Kani obligations ({comp(q)} complete, {len(q)-comp(q)} bounded, bounds in the evidence file)"
-               f" and {len(u.get('verus',[]))} Verus lemma file(s); the thorough tier adds {len(t)} obligations ({comp(t)} complete) that need more than the quick tier's 15 minutes or 10 GB.")
+               f" and {len(u.get('verus',[]))} Verus lemma file(s); the thorough tier adds {len(t)} obligations ({comp(t)} complete) that need more than the quick tier's 15 minutes or 10 GB."
+               + (f" {len(un)} further obligations are written but were never completed by CBMC within 28-44 GB / an hour (tier `unreached`: not run, listed in the evidence; what they would decide is NOT decided)." if un else ""))
         note='; '.join(u.get('assumptions',[]))
         if u.get('not_decided'): note+=' || NOT DECIDED: '+'; '.join(u['not_decided'])
         checks.append({
